@@ -68,9 +68,11 @@ type c15Etcd struct {
 	watches     []*c15Watch
 	gets        int
 	getFails    int
-	failGets    int    // number of upcoming Get calls that fail
-	deadCtxGets int    // Gets that arrived with an already expired context while the store was healthy
-	failPub     string // "grant" | "put" | "keepalive": the next such publisher call fails once
+	failGets    int             // number of upcoming Get calls that fail
+	gateGets    bool            // Gets park until released (a slow snapshot request)
+	gated       []chan struct{} // parked Gets, oldest first
+	deadCtxGets int             // Gets that arrived with an already expired context while the store was healthy
+	failPub     string          // "grant" | "put" | "keepalive": the next such publisher call fails once
 
 	// gap: changes applied right after the next Get has taken its snapshot (they land
 	// between the snapshot and the Watch registration that follows it)
@@ -210,6 +212,15 @@ func (e *c15Etcd) Get(ctx context.Context, key string, opts ...clientv3.OpOption
 	ranged := len(op.RangeBytes()) > 0
 	e.mu.Lock()
 	defer e.mu.Unlock()
+	if e.gateGets {
+		// the request is in flight until the harness lets it through; the snapshot is taken
+		// when it is served
+		ch := make(chan struct{})
+		e.gated = append(e.gated, ch)
+		e.mu.Unlock()
+		<-ch
+		e.mu.Lock()
+	}
 	e.gets++
 	if e.failGets > 0 {
 		e.failGets--
@@ -560,4 +571,39 @@ func (e *c15Etcd) lastGet() (snap map[string]string, logLen int) {
 func clientv3Canceled() clientv3.WatchResponse { return clientv3.WatchResponse{Canceled: true} }
 func clientv3Compacted(rev int64) clientv3.WatchResponse {
 	return clientv3.WatchResponse{CompactRevision: rev}
+}
+
+func (e *c15Etcd) gateOn() {
+	e.mu.Lock()
+	e.gateGets = true
+	e.mu.Unlock()
+}
+
+// gateOff lets every parked Get through and stops parking.
+func (e *c15Etcd) gateOff() {
+	e.mu.Lock()
+	e.gateGets = false
+	for _, ch := range e.gated {
+		close(ch)
+	}
+	e.gated = nil
+	e.mu.Unlock()
+}
+
+func (e *c15Etcd) gatedCount() int {
+	e.mu.Lock()
+	defer e.mu.Unlock()
+	return len(e.gated)
+}
+
+// releaseOldest serves the Get that has been in flight longest.
+func (e *c15Etcd) releaseOldest() bool {
+	e.mu.Lock()
+	defer e.mu.Unlock()
+	if len(e.gated) == 0 {
+		return false
+	}
+	close(e.gated[0])
+	e.gated = e.gated[1:]
+	return true
 }
